@@ -9,9 +9,9 @@ use num_traits::{One, Zero};
 mod cfgs;
 use cfgs::*;
 
-struct Rng(u64);
+pub struct Rng(pub u64);
 impl Rng {
-    fn next(&mut self) -> u64 {
+    pub fn next(&mut self) -> u64 {
         self.0 ^= self.0 << 13;
         self.0 ^= self.0 >> 7;
         self.0 ^= self.0 << 17;
@@ -195,15 +195,32 @@ fn replay_one(op: &str, w: &str) -> bool {
     }
 }
 
+static LAST_PANIC: std::sync::Mutex<String> = std::sync::Mutex::new(String::new());
 mod bigint_units;
+mod bounded;
 mod serde_units;
 
 fn main() {
     let args: Vec<String> = std::env::args().collect();
-    std::panic::set_hook(Box::new(|_| {}));
+    std::panic::set_hook(Box::new(|info| {
+        if let Ok(mut g) = LAST_PANIC.lock() {
+            *g = format!("{info}");
+        }
+    }));
     let mode = args[1].as_str();
     let unit = args[2].as_str();
     match mode {
+        "bounded" => {
+            let seed: u64 = args.get(3).and_then(|s| s.parse().ok()).unwrap_or(1);
+            let unit_owned = unit.to_string();
+            match std::panic::catch_unwind(move || bounded::run(&unit_owned, seed)) {
+                Ok(rc) => std::process::exit(rc),
+                Err(_) => {
+                    println!("FAIL uncaught panic in group {}: {}", unit, LAST_PANIC.lock().map(|g| g.clone()).unwrap_or_default());
+                    std::process::exit(1);
+                },
+            }
+        },
         "search" => {
             let seed: u64 = args.get(3).and_then(|s| s.parse().ok()).unwrap_or(1);
             let mut rng = Rng(seed.wrapping_mul(0x9E3779B97F4A7C15) | 1);
